@@ -115,6 +115,7 @@ class FromBaseContract(Contract):
     cls's family whose view is plain(data); anything else is returned as is (numpy conversion aside)."""
     name = "SyncedCollection._from_base"
     params = ("cls", "data")
+    kwargs_domain = ("parent",)      # **kwargs are forwarded to the constructor: the contract covers `parent` only
 
     def cases(self, cx):
         def is_coll(c):
